@@ -420,7 +420,11 @@ def execute(cfg, events, fresh, seed_key, base, sample=1):
                 kind, info = 'triple', None
                 step = {'n': n, 'op': 'triple', 'rep': ex.triple(ev['target'], n)}
             else:
-                kind, info = ex.run.execute(ev)
+                if ev['op'] == 'open_backport':
+                    from . import c10_backport
+                    kind, info = c10_backport.open_backport(ex.run, ev)
+                else:
+                    kind, info = ex.run.execute(ev)
                 if kind == 'skip':
                     ex.count('skipped')
                     continue
@@ -514,7 +518,11 @@ def _work(args):
     try:
         if spec is None:
             rng = common.rng_for(seed, PID, i)
-            cfg, mode, evs = gen(rng)
+            if isinstance(i, str) and i.startswith('backport:'):
+                from . import c10_backport
+                cfg, mode, evs = c10_backport.gen(rng, int(i.split(':')[1]))
+            else:
+                cfg, mode, evs = gen(rng)
             sample = 1
         else:
             from .system import Config
@@ -585,7 +593,10 @@ RULE = ('A: find_comment/_send_comment on every comment list of length <= 3 (qui
         'x queue modes; after EVERY event one possible evaluation of the reached state (any pull request, any source/w/q/q-w tip), '
         'chosen by the PRNG, is repeated 3 times (4 if the third still acts); every history is executed twice '
         '(long-lived instance / server restarted before every job) and compared event by event; every real notify_user and '
-        'command pass is replayed on the model. non-trivial = a history in which a command was executed or a repetition changed the state')
+        'command pass is replayed on the model; plus a "backport" family (6 quick / 45 thorough histories, modes queue / '
+        'queue+skip / no queue in rotation, no integration pull requests): the source branch was merged up by hand into '
+        'the later development branches before the pull request is opened against an earlier one, so that the integration '
+        'branches are in sync when they are created. non-trivial = a history in which a command was executed or a repetition changed the state')
 
 
 def correspondence(ctx):
@@ -597,6 +608,9 @@ def correspondence(ctx):
     use_model = ctx.model is not None
     jobs = [('corpus:' + s['name'], ctx.seed, base, use_model, s) for s in corpus_specs()]
     jobs += [(i, ctx.seed, base, use_model, None) for i in range(n)]
+    # the "backport" family (harness/c10_backport.py): source already contained in the later development branches
+    nb = int(os.environ.get('VERIF_C10_BACKPORTS', 6 if ctx.tier == 'quick' else 45)) * ctx.scale
+    jobs += [('backport:%d' % j, ctx.seed, base, use_model, None) for j in range(nb)]
     with Pool(common.NCPU) as pool:
         outs = pool.map(_work, jobs, chunksize=1)
     collect(res, outs)
